@@ -151,13 +151,17 @@ pub struct ImportCase {
     /// real files created under the scratch root before the run
     pub decoys: Vec<String>,
     pub root: String,
+    /// a second importing file, in another directory, that loads the SAME URL text with
+    /// the same directive later in the same compilation: each search starts from its own
+    /// importer's directory
+    pub twin: Option<String>,
 }
 
 impl ImportCase {
     fn to_json(&self) -> Value {
         json!({"job": self.job.to_json(), "importer": self.importer, "url": self.url, "directive": self.directive, "line": self.line,
             "extra_urls": self.extra_urls.iter().map(|(a, b, c)| json!([a, b, c])).collect::<Vec<_>>(),
-            "plain": self.plain, "decoys": self.decoys, "root": self.root})
+            "plain": self.plain, "decoys": self.decoys, "root": self.root, "twin": self.twin})
     }
     fn from_json(v: &Value) -> Option<Self> {
         let strs = |k: &str| -> Vec<String> { v.get(k).and_then(|a| a.as_array()).map(|a| a.iter().filter_map(|s| s.as_str().map(String::from)).collect()).unwrap_or_default() };
@@ -175,6 +179,7 @@ impl ImportCase {
             plain: strs("plain"),
             decoys: strs("decoys"),
             root: v.get("root")?.as_str()?.to_string(),
+            twin: v.get("twin").and_then(|t| t.as_str()).map(String::from),
         })
     }
     fn for_import(&self) -> bool {
@@ -353,7 +358,69 @@ fn gen_case(rng: &mut Rng, root: &str) -> ImportCase {
         }
     }
     job.files = files;
-    ImportCase { job, importer, url, directive: directive.to_string(), line, extra_urls, plain: vec![], decoys: vec![], root: root.to_string() }
+    ImportCase { job, importer, url, directive: directive.to_string(), line, extra_urls, plain: vec![], decoys: vec![], root: root.to_string(), twin: None }
+}
+
+/// Two importing files in different directories load the same URL text: `a/one` first,
+/// then `b/two`. Whatever the first search found must not influence the second.
+fn gen_twin_case(rng: &mut Rng, root: &str) -> ImportCase {
+    let mut job = JobSpec::default();
+    job.cwd = root.to_string();
+    job.eval_fuel = 1_000_000;
+    job.canon = if rng.chance(0.4) { CanonMode::Identity } else { CanonMode::Absolute };
+    let directive = *rng.pick(&["import", "import", "use", "forward", "load-css"]);
+    let name = *rng.pick(&["shared", "foo", "foo.bar", "lib"]);
+    let prefix = *rng.pick(&["", "", "./", "sub/"]);
+    let url = format!("{}{}", prefix, name);
+    let one = join(root, "a/one.scss");
+    let two = join(root, "b/two.scss");
+    let entry = join(root, "main.scss");
+    let reach = if rng.chance(0.5) { "@import \"a/one\";\n@import \"b/two\";\n".to_string() } else { "@use \"a/one\" as o;\n@use \"b/two\" as t;\n".to_string() };
+    let for_reach = reach.starts_with("@import");
+    let body = format!("/* importer */\n{}", directive_text(directive, &url, false));
+    let mut files: Vec<(String, Vec<u8>)> = vec![(entry.clone(), reach.into_bytes()), (one.clone(), body.clone().into_bytes()), (two.clone(), body.into_bytes())];
+    let line = if directive == "load-css" { 3 } else { 2 };
+    let mut lps: Vec<String> = vec![];
+    for d in ["lp1", "lp2"] {
+        if rng.chance(0.4) {
+            lps.push(if rng.chance(0.5) { d.to_string() } else { join(root, d) });
+        }
+    }
+    job.load_paths = lps.clone();
+    job.extra_dirs = vec![join(root, "lp1"), join(root, "lp2"), join(root, "a"), join(root, "b")];
+    let for_import = directive == "import";
+    let mut existing: BTreeSet<String> = files.iter().map(|f| f.0.clone()).collect();
+    let mut locs = vec![join(root, "a"), join(root, "b")];
+    for lp in &lps {
+        locs.push(normalize(root, lp));
+    }
+    for base in &locs {
+        let p = normalize("/", &join(base, &url));
+        let mut levels: Vec<Vec<String>> = vec![];
+        for stem in [p.clone(), join(&p, "index")] {
+            if for_import {
+                let mut io = exact_names(&format!("{}.import.sass", stem));
+                io.extend(exact_names(&format!("{}.import.scss", stem)));
+                levels.push(io);
+            }
+            let mut sassy = exact_names(&format!("{}.sass", stem));
+            sassy.extend(exact_names(&format!("{}.scss", stem)));
+            levels.push(sassy);
+            levels.push(vec![format!("{}.css", stem)]);
+        }
+        for lv in levels {
+            if rng.chance(0.3) {
+                let f = rng.pick(&lv).clone();
+                if existing.insert(f.clone()) {
+                    files.push((f.clone(), marker_text(&f, root)));
+                }
+            }
+        }
+    }
+    job.files = files;
+    job.entry = Entry::Path(if rng.chance(0.5) { entry.clone() } else { "main.scss".to_string() });
+    let extra_urls = vec![(entry.clone(), "a/one".to_string(), for_reach), (entry, "b/two".to_string(), for_reach)];
+    ImportCase { job, importer: one, url, directive: directive.to_string(), line, extra_urls, plain: vec![], decoys: vec![], root: root.to_string(), twin: Some(two) }
 }
 
 fn gen_plain_case(rng: &mut Rng, root: &str) -> ImportCase {
@@ -395,7 +462,7 @@ fn gen_plain_case(rng: &mut Rng, root: &str) -> ImportCase {
     if rng.chance(0.5) {
         job.load_paths.push(root.to_string());
     }
-    ImportCase { job, importer: entry, url: String::new(), directive: "plain".into(), line: 1, extra_urls: vec![], plain, decoys: vec![], root: root.to_string() }
+    ImportCase { job, importer: entry, url: String::new(), directive: "plain".into(), line: 1, extra_urls: vec![], plain, decoys: vec![], root: root.to_string(), twin: None }
 }
 
 // ---------------------------------------------------------------- oracle
@@ -471,6 +538,60 @@ fn judge(case: &ImportCase, r: &JobResult, breaches: &[String]) -> Vec<(String, 
                 }
             }
             Outcome::Err(e) => v.push(("plain-css-import-error".into(), format!("plain-CSS imports {:?} failed: {}", case.plain, e.display))),
+            _ => {}
+        }
+        return v;
+    }
+    if let Some(twin) = &case.twin {
+        let w1 = model.resolve(&case.job.cwd, &case.importer, &case.url, &case.job.load_paths, case.for_import());
+        let w2 = model.resolve(&case.job.cwd, twin, &case.url, &case.job.load_paths, case.for_import());
+        for w in [&w1, &w2].into_iter().flatten() {
+            allowed_reads.insert(w.clone());
+        }
+        for e in &r.fs {
+            let ok = match e.op {
+                FsOp::Read => allowed_reads.contains(&e.norm),
+                _ => model.candidates.contains(&e.norm) || allowed_reads.contains(&e.norm),
+            };
+            if !ok {
+                v.push((format!("query-outside-candidates[twin,{}]", feat), format!("{}({}) is not a candidate of either search for {:?}", e.op.name(), e.path, case.url)));
+                break;
+            }
+        }
+        // each importer's own relative candidates must actually have been asked about
+        // (unless the first search already failed): a search that is skipped shows as silence
+        let asked = |imp: &str| r.fs.iter().any(|e| e.op != FsOp::Read && e.norm.starts_with(&format!("{}/", dirname(imp))) && e.norm != *imp);
+        match &r.outcome {
+            Outcome::Ok(css) => {
+                let seen: Vec<String> = observed_markers(css).into_iter().map(|m| by_marker.get(&m).cloned().unwrap_or(m)).collect();
+                match (&w1, &w2) {
+                    (Some(a), Some(b)) => {
+                        let exp = vec![a.clone(), b.clone()];
+                        let once = a == b && seen == vec![a.clone()];
+                        if seen != exp && !once {
+                            v.push((format!("wrong-winner[twin,{}]", feat), format!("@{} {:?} from {} and then from {} (load paths {:?}): the statement selects {} and {}, the output carries the markers of {:?}\nfiles: {:?}", case.directive, case.url, case.importer, twin, case.job.load_paths, a, b, seen, files)));
+                        } else if !asked(twin) {
+                            v.push((format!("search-skipped[twin,{}]", feat), format!("the second load of {:?} (from {}) never asked the Fs about a candidate in its own directory", case.url, twin)));
+                        }
+                    }
+                    _ => v.push((format!("missing-import-error[twin,{}]", feat), format!("@{} {:?}: one of the two searches has no match by the statement ({:?}, {:?}), yet compilation succeeded with markers {:?}", case.directive, case.url, w1, w2, seen))),
+                }
+            }
+            Outcome::Err(e) => {
+                let site = if w1.is_none() { Some(&case.importer) } else if w2.is_none() { Some(twin) } else { None };
+                match site {
+                    None => {
+                        if !faulted_read {
+                            v.push((format!("unexpected-error[twin,{}]", feat), format!("both searches for {:?} have a match ({:?}, {:?}) but compilation failed: {}", case.url, w1, w2, e.display)));
+                        }
+                    }
+                    Some(imp) => {
+                        if !faulted_read && (e.kind != "parse" || normalize(&case.job.cwd, &e.file) != normalize(&case.job.cwd, imp) || e.line != case.line) {
+                            v.push(("error-not-at-import-site".into(), format!("no match for {:?} from {}: expected an error at {}:{}, got kind={} at {}:{} — {}", case.url, imp, imp, case.line, e.kind, e.file, e.line, e.message)));
+                        }
+                    }
+                }
+            }
             _ => {}
         }
         return v;
@@ -569,6 +690,9 @@ impl Imports {
         res.fold(format!("{:?}", breaches).replace(&case.root, "$ROOT").as_bytes());
         res.bump("evaluations", 1);
         res.bump(&format!("directive.{}", case.directive), 1);
+        if case.twin.is_some() {
+            res.bump("probe.same_url_loaded_from_two_directories", 1);
+        }
         res.bump(&format!("feature.{}", case.feature()), 1);
         if case.job.faults.is_empty() {
             res.bump("fault_free_runs", 1);
@@ -636,7 +760,8 @@ impl Engine for Imports {
         let _ = std::fs::create_dir_all(&root);
         let mut idx = 0u64;
         for _ in 0..40 {
-            let mut case = if rng.chance(0.12) { gen_plain_case(&mut rng, &root) } else { gen_case(&mut rng, &root) };
+            let pick = rng.below(100);
+            let mut case = if pick < 12 { gen_plain_case(&mut rng, &root) } else if pick < 30 { gen_twin_case(&mut rng, &root) } else { gen_case(&mut rng, &root) };
             // decoys: real files at the paths of absent virtual candidates
             if rng.chance(0.3) {
                 let files: BTreeSet<String> = case.job.files.iter().map(|f| f.0.clone()).collect();
